@@ -63,9 +63,11 @@ LeafSet ==
   \cup UNION { { Leaf(Sem("imps", f, "", 0, 0, x, ""), <<W(StrField[f][a]), S(q, x)>>)
                  : a \in 1..Len(StrField[f]), q \in {"bare","single"}, x \in StrLitOf[f] } : f \in DOMAIN StrField }
   \cup UNION { { Leaf(Sem("impi", f, "", x, 0, "", ""), <<W(IntField[f][a]), I(x)>>) : a \in 1..Len(IntField[f]), x \in IntLitOf[f] } : f \in (DOMAIN IntField) \ {"mass"} }
-  \* a name that contains a quote character (primed atom names) can only be written inside the other kind of quotes
-  \cup { Leaf(Sem("cmps", "name", op, 0, 0, "H1'", ""), <<W("name"), W(CmpOps[op][o]), S("double", "H1'")>>) : op \in {"eq","ne"}, o \in 1..2 }
-  \cup { Leaf(Sem("imps", "name", "", 0, 0, "H1'", ""), <<W("name"), S("double", "H1'")>>) }
+  \* a name that contains a quote character (primed atom names) can only be written inside the other kind of quotes ("double"),
+  \* or inside single quotes with the apostrophe escaped by a backslash ("escaped": 'H1\''); a quoted literal denotes the string the
+  \* Python string literal of the same text denotes
+  \cup { Leaf(Sem("cmps", "name", op, 0, 0, "H1'", ""), <<W("name"), W(CmpOps[op][o]), S(q, "H1'")>>) : op \in {"eq","ne"}, o \in 1..2, q \in {"double", "escaped"} }
+  \cup { Leaf(Sem("imps", "name", "", 0, 0, "H1'", ""), <<W("name"), S(q, "H1'")>>) : q \in {"double", "escaped"} }
   \cup UNION { { Leaf(Sem("re", f, "", k, 0, "", ""), <<W(StrField[f][1]), W("=~"), S("single", RePat[f][k])>>) : k \in 1..Len(RePat[f]) } : f \in DOMAIN RePat }
   \cup { Leaf(Sem("ins", f, "", 0, 0, x, y), <<W(StrField[f][1]), S("bare", x), S("bare", y)>>) : f \in {"name","resname"}, x \in {"CA","ALA"}, y \in {"N","HOH"} }
   \cup UNION { { Leaf(Sem("rng", f, "", x, y, "", ""), <<W(IntField[f][a]), I(x), W("to"), I(y)>>)
